@@ -8,7 +8,7 @@ import sys
 from hypothesis import strategies as st
 
 from .. import gen
-from ..cells import build, cells, cells_of_desc, cells_of_str, show
+from ..cells import build_any, cells, cells_of_desc, cells_of_str, show
 from ..common import HarnessError, Res, call, exc_str, hyp_campaign
 from .c15 import items_of
 
@@ -131,7 +131,9 @@ def run_case(case):
         value, src, desc = case["str"], cells_of_str(case["str"]), case["str"]
         res.label("plain_str")
     else:
-        value, src, desc = build(case["desc"], "chunks"), cells_of_desc(case["desc"]), case["desc"]
+        value, src, desc = build_any(case["desc"], case.get("build", "chunks"), case.get("obs", 0)), cells_of_desc(case["desc"]), case["desc"]
+        if case.get("obs") or case.get("build", "chunks") != "chunks":
+            res.label("value_with_history")
     cols = case.get("columns") or [1, 2, 3, 5]
     res.evals = len(cols)
     for c in cols:
@@ -148,12 +150,16 @@ SYMS = ["a", "b", " ", "\n", "　", "\t"]
 
 
 def strategy():
-    alpha = "abcdefg" + WS + "   "
+    alpha = "abcdefg" + WS + "   " + "世Ｅ́\x7f"  # words may contain double-width, combining and control characters: length counts characters
     run = st.tuples(gen.text(alpha, 0, 8), st.sampled_from(FMTS + [{"underline": True}, {"fg": 31, "bg": 44}])).map(list)
-    cols = st.lists(st.integers(1, 8), min_size=1, max_size=3, unique=True)
+    cols = st.lists(st.one_of(st.integers(1, 8), st.integers(1, 8), st.sampled_from([10, 16, 20, 40, 79, 80, 100])), min_size=1, max_size=3, unique=True)
+    long_run = st.tuples(gen.text(alpha, 20, 160), st.sampled_from(FMTS)).map(list)
     return st.one_of(
-        st.fixed_dictionaries({"desc": st.lists(run, min_size=0, max_size=5), "columns": cols}),
+        st.fixed_dictionaries({"desc": st.lists(run, min_size=0, max_size=5), "columns": cols, "build": gen.BUILDS, "obs": gen.OBS}),
+        st.fixed_dictionaries({"desc": st.lists(run, min_size=0, max_size=5), "columns": cols, "build": gen.BUILDS, "obs": gen.OBS}),
         st.fixed_dictionaries({"str": gen.text(alpha, 0, 16), "columns": cols}),
+        st.fixed_dictionaries({"desc": st.lists(long_run, min_size=1, max_size=3), "columns": cols}),
+        st.fixed_dictionaries({"str": gen.text(alpha, 40, 300), "columns": cols}),
     )
 
 
